@@ -393,6 +393,51 @@ func genTime(c *hx.Ctx) {
 			flush()
 		}
 	}
+	// (T1b) same-instant class: 5..9 requests (NewTimer / AfterFunc, different goroutines) issued at ONE virtual
+	//       instant — in two scenarios out of three exactly at a tick instant, where each of them may be ordered before
+	//       or after the tick independently — with Reset chains whose delays make the Resets coincide again
+	//       (zero delay out of the fire, or a common delay landing on / off a tick instant).
+	S := c.Budget(60, 1200)
+	for i := 0; i < S; i++ {
+		st := steps[c.Rng.Intn(len(steps))]
+		n := ns[c.Rng.Intn(4)]
+		if c.Rng.Intn(8) == 0 {
+			n = 64
+		}
+		at := int64(c.Rng.Range(1, 2*n+1)) * st
+		if i%3 == 2 {
+			at = int64(c.Rng.Intn(2*n+1))*st + phaseOf(c.Rng, st)
+		}
+		np := c.Rng.Range(5, 9)
+		common := rst{delay: int64(c.Rng.Intn(3)) * st}
+		if c.Rng.Bool() {
+			common.delay += phaseOf(c.Rng, st)
+		}
+		sameD := durOf(c.Rng, st, n)
+		var progs []prog
+		for k := 0; k < np; k++ {
+			p := prog{at: at, d: durOf(c.Rng, st, n)}
+			if c.Rng.Intn(3) == 0 {
+				p.d = sameD // same bucket, same fire instant: the Resets coincide again
+			}
+			switch c.Rng.Intn(4) {
+			case 0:
+				p.after = true
+			case 1:
+				p.resets = []rst{{delay: 0}, common}
+			case 2:
+				p.resets = []rst{common, {delay: 0}}
+			default:
+				p.resets = []rst{common}
+			}
+			progs = append(progs, p)
+		}
+		emitTime(c, "time_same_instant", st, n, progs)
+		c.Stats["time_same_instant_requests"] += np
+		if at%st == 0 {
+			c.Stats["time_same_instant_at_tick"]++
+		}
+	}
 	// (T2) random scenarios: 1..64 concurrent programs, Reset chains with delays on and off tick instants,
 	//      Reset arguments below step (ignored), in range, and out of range (panic); AfterFunc; range panics
 	K := c.Budget(3000, 40000)
